@@ -5,7 +5,7 @@
 EXTENDS JetProg
 CONSTANTS Depth, Families     \* Families: subset of {"site", "top"}
 
-Ops == {"Let-s", "Let-x3", "Set-s", "Set-p", "Set-undef", "SetOrLet-s", "SetOrLet-x3", "SetOrLet-g", "LetGlobal-x3", "LetGlobal-s",
+Ops == {"Let-s", "Let-x3", "Set-s", "Set-p", "Set-undef", "SetOrLet-s", "SetOrLet-x3", "SetOrLet-g", "SetOrLet-p", "LetGlobal-x3", "LetGlobal-s", "Yield-yc",
         "Resolve-s", "Resolve-g", "Resolve-undef", "Context", "Yield-ctx", "Yield-noctx", "Yield-undef", "tl-let", "tl-set"}
 SiteKinds == {"range", "rangekv", "ycont", "ybody", "include", "includectx", "iflet", "let", "blockdef", "tryin"}
 
@@ -19,6 +19,7 @@ OpStmt(o, i) ==
     [] o = "SetOrLet-s"   -> Api(id, "SetOrLet", "s", Lit("O" \o ToString(i)))
     [] o = "SetOrLet-x3"  -> Api(id, "SetOrLet", "x3", Lit("O" \o ToString(i)))
     [] o = "SetOrLet-g"   -> Api(id, "SetOrLet", "g", Lit("O" \o ToString(i)))
+    [] o = "SetOrLet-p"   -> Api(id, "SetOrLet", "p", Lit("O" \o ToString(i)))
     [] o = "LetGlobal-x3" -> Api(id, "LetGlobal", "x3", Lit("G" \o ToString(i)))
     [] o = "LetGlobal-s"  -> Api(id, "LetGlobal", "s", Lit("G" \o ToString(i)))
     [] o = "Resolve-s"    -> Api(id, "Resolve", "s", NoE)
@@ -27,6 +28,8 @@ OpStmt(o, i) ==
     [] o = "Context"      -> Api(id, "Context", "", NoE)
     [] o = "Yield-ctx"    -> [Api(id, "YieldBlock", "ab", NoE) EXCEPT !.e2 = Lit("yc" \o ToString(i))]
     [] o = "Yield-noctx"  -> Api(id, "YieldBlock", "ab", NoE)
+    \* the yielded block renders {{yield content}}: YieldBlock leaves the enclosing content as it is
+    [] o = "Yield-yc"     -> Api(id, "YieldBlock", "aby", NoE)
     [] o = "Yield-undef"  -> Api(id, "YieldBlock", "nosuchblock", NoE)
     [] o = "tl-let"       -> LetS(id, "x3", Lit("T" \o ToString(i)))
     [] o = "tl-set"       -> SetS(id, "s", Lit("T" \o ToString(i)))
@@ -55,7 +58,8 @@ MkC(par) ==
       focal == <<T("f0")>> \o [i \in 1..Len(ops) |-> OpStmt(ops[i], i)] \o Reads("f")
       r     == Build(path, 1, focal)
       main  == <<T("pre"), LetS("ls", "s", Lit("s0"))>> \o r.main \o Reads("z") \o <<T("post")>>
-      lib   == Tm("lib", "", <<>>, r.bl \o <<BlockS("abd", "ab", <<>>, NoE, <<T("AB("), P("abc", Ctx), P("abs", Var("s")), T(")")>>)>>)
+      lib   == Tm("lib", "", <<>>, r.bl \o <<BlockS("abd", "ab", <<>>, NoE, <<T("AB("), P("abc", Ctx), P("abs", Var("s")), T(")")>>),
+                                        BlockS("abyd", "aby", <<>>, NoE, <<T("ABY("), YContent("abyy"), T(")")>>)>>)
   IN [ts |-> <<Tm("main", "", <<"lib">>, main), lib>> \o r.ts,
       globals |-> [NoVarsMap EXCEPT !["g"] = "glG"],
       \* the second execution has no data: '.' is invalid at the call site and must be so again after the call
